@@ -9,10 +9,13 @@ from core import Case, nlist
 from pyerr import canon_call, exc_code
 
 PROP = 'C09'
-COQ_TARGETS = ['theories/BvllStable.vo']
+COQ_TARGETS = ['theories/BvllStable.vo', 'theories/BvllGenFacts.vo']
 COQ_IMPORTS = 'From Bac Require Import Base Bvll.'
 TABLE_OBLIGATIONS = ['registry_table_exact', 'ctor_function_table', 'ctor_type_table', 'message_type_table',
-                     'ctor_length_table']
+                     'ctor_length_table',
+                     # re-proved by make against the regenerated gen/BvllFns.v (BvllGenFacts.v): translated text = hand model
+                     'message_type_is_model', 'BVLCI_update_is_model', 'BVLPDU_encode_is_model', 'BVLPDU_decode_is_model',
+                     'class_encode_is_model', 'class_decode_spec', 'gen_enc_frame_with_is_model', 'gen_dec_frame_from_is_model']
 RULE = ('cases: each of the 12 functions encoded through AnnexJCodec.indication (tables of every size 0..40, NPDU payloads '
         '{0,1,2,1496,1497}+random, IPv4 octets/ports/masks/TTLs over boundary grids incl. out-of-range and negative values, '
         'None/absent fields, addresses of the wrong length, tables changed after construction); every produced frame decoded '
@@ -25,7 +28,15 @@ RULE = ('cases: each of the 12 functions encoded through AnnexJCodec.indication 
         'tables, messages constructed without arguments) whose decoded messages are inspected after the whole history.  non-trivial = an encode of a message with >= 1 parameter octet or a refusal '
         'with a reason, a decode that delivers a message or refuses after reading >= 1 octet; distinct by (operation, input).')
 TRUSTED = ['model coq/theories/Bvll.v written by hand after bvll.py:58-123,168-700, bvllservice.py:286-317 (with the fix: commit), '
-           'pdu.py Address tuple form / unpack_ip_addr; tie = in-kernel correspondence',
+           'pdu.py Address tuple form / unpack_ip_addr; tie = in-kernel correspondence AND, for the encode/decode/update method bodies of '
+           'bvll.py (BVLCI, BVLPDU, the twelve message classes, messageType constants), translation: gen/BvllFns.v is regenerated from the '
+           'source on every run and proved equal to the model for all inputs (BvllGenFacts.v)',
+           'translator/gen_bvllfns.py: ast-level, statement-by-statement translation of those method bodies into the vocabulary of '
+           'coq/theories/BvllRt.v (hand-written meaning of PDUData put/get, attribute reads, Address(unpack_ip_addr(..)), FDTEntry(), '
+           'append, for, while-with-fuel); skipped: docstrings, `if _debug:` lines, PCI.update(..) (addressing / user data); everything '
+           'else it does not recognise aborts the translation.  Still hand-modelled (correspondence + table obligations only): the '
+           'constructors, AnnexJCodec.indication/confirmation (glue BvllGen.v), comm.PDUData, pdu.Address; Python object identity / '
+           'aliasing (shared default lists, cached objects) is outside the translated semantics and is covered by the history / objseq generators',
            'translator/gen_bvll.py: imports bacpypes.bvll in a subprocess and prints bvl_pdu_types and the constructors\' header '
            'fields as Gallina lists (gen/BvllTable.v)',
            'socket.inet_aton/inet_ntoa are inverse on dotted quads (pinned by the addrTuple observable of every decoded address)']
